@@ -451,6 +451,7 @@ func c20RunTrackChildOnce(in c20Input, exe string) (c20TrackImpl, bool) {
 	inPath, outPath := filepath.Join(dir, "in.json"), filepath.Join(dir, "out.json")
 	_ = os.WriteFile(inPath, b, 0o644)
 	cmd := exec.Command(exe, "-test.run", "^TestC20TrackChild$", "-test.timeout", "5m")
+	coverChild(cmd)
 	cmd.Env = append(os.Environ(), c20TrackInEnv+"="+inPath, c20TrackOutEnv+"="+outPath, "VERIF_OUT="+filepath.Join(dir, "unused.jsonl"))
 	var buf bytes.Buffer
 	cmd.Stdout, cmd.Stderr = &buf, &buf
@@ -516,6 +517,9 @@ func c20RaceExeFor(t *testing.T) string {
 	}
 	exe := filepath.Join(os.TempDir(), fmt.Sprintf("c20race.%d.test", os.Getpid()))
 	cmd := exec.Command("go1.26.8", "test", "-c", "-race", "-tags", "verif", "-o", exe, ".")
+	if os.Getenv("VERIF_COVERDIR") != "" {
+		cmd = exec.Command("go1.26.8", "test", "-c", "-race", "-tags", "verif", "-cover", "-coverpkg=github.com/smartcontractkit/chainlink-automation/...", "-o", exe, ".")
+	}
 	cmd.Dir = src
 	cmd.Env = append(os.Environ(), "GOFLAGS=-mod=mod", "GOPROXY=off", "GOSUMDB=off", "GOTOOLCHAIN=local")
 	if out, err := cmd.CombinedOutput(); err != nil {
@@ -527,22 +531,26 @@ func c20RaceExeFor(t *testing.T) string {
 
 // c20NegativePerformPlan: a plan that expects NO perform although its upkeep will be performed (an always
 // eligible log-trigger upkeep marked expected:"none", its log emitted, healthy RPC): the verdict must be failure.
+// It is also the LONG run of the quick tier: 130 blocks, more than the 100-element buffers between the chain
+// components and their subscribers, with logs (and performs) spread over the whole run.
 func c20NegativePerformPlan() config.SimulationPlan {
 	genesis := int64(7000)
 	return config.SimulationPlan{
 		Node:         config.Node{Count: 4, MaxServiceWorkers: 100, MaxQueueSize: 1000},
 		Network:      config.Network{MaxLatency: config.Duration(50 * time.Millisecond)},
 		RPC:          config.RPC{MaxBlockDelay: 100, AverageLatency: 50, ErrorRate: 0, RateLimitThreshold: 1000},
-		Blocks:       config.Blocks{Genesis: big.NewInt(genesis), Cadence: config.Duration(time.Second), Duration: 40, EndPadding: 15},
+		Blocks:       config.Blocks{Genesis: big.NewInt(genesis), Cadence: config.Duration(time.Second), Duration: 115, EndPadding: 15},
 		ConfigEvents: []config.OCR3ConfigEvent{c20ConfigEvent(genesis+1, 1)},
 		GenerateUpkeeps: []config.GenerateUpkeepEvent{{
 			Event: config.Event{Type: config.GenerateUpkeepEventType, TriggerBlock: big.NewInt(genesis + 2)},
 			Count: 2, StartID: big.NewInt(300), EligibilityFunc: "always", UpkeepType: config.LogTriggerUpkeepType,
 			LogTriggeredBy: "test_trigger_event", Expected: config.NoneExpected,
 		}},
-		LogEvents: []config.LogTriggerEvent{{
-			Event: config.Event{Type: config.LogTriggerEventType, TriggerBlock: big.NewInt(genesis + 12)}, TriggerValue: "test_trigger_event",
-		}},
+		LogEvents: []config.LogTriggerEvent{
+			{Event: config.Event{Type: config.LogTriggerEventType, TriggerBlock: big.NewInt(genesis + 12)}, TriggerValue: "test_trigger_event"},
+			{Event: config.Event{Type: config.LogTriggerEventType, TriggerBlock: big.NewInt(genesis + 60)}, TriggerValue: "test_trigger_event"},
+			{Event: config.Event{Type: config.LogTriggerEventType, TriggerBlock: big.NewInt(genesis + 105)}, TriggerValue: "test_trigger_event"},
+		},
 	}
 }
 
@@ -672,6 +680,7 @@ func c20RunCollectorOnce(in c20Input, exe string, raceBuild bool) (c20CollectorR
 	outPath := filepath.Join(dir, "result.json")
 	inJSON, _ := json.Marshal(in)
 	cmd := exec.Command(exe, "-test.run", "^TestC20CollectorChild$", "-test.timeout", "5m")
+	coverChild(cmd)
 	cmd.Env = append(os.Environ(), c20CollectorOutEnv+"="+outPath, "C20_COLLECTOR_IN="+string(inJSON), "VERIF_OUT="+filepath.Join(dir, "unused.jsonl"))
 	var buf bytes.Buffer
 	cmd.Stdout, cmd.Stderr = &buf, &buf
@@ -842,6 +851,7 @@ func c20RunDBOnce(in c20Input, exe string, raceBuild bool) (c20DBResult, bool) {
 	outPath := filepath.Join(dir, "result.json")
 	inJSON, _ := json.Marshal(in)
 	cmd := exec.Command(exe, "-test.run", "^TestC20DBChild$", "-test.timeout", "5m")
+	coverChild(cmd)
 	cmd.Env = append(os.Environ(), c20DBOutEnv+"="+outPath, "C20_DB_IN="+string(inJSON), "VERIF_OUT="+filepath.Join(dir, "unused.jsonl"))
 	var buf bytes.Buffer
 	cmd.Stdout, cmd.Stderr = &buf, &buf
@@ -865,4 +875,26 @@ func c20RunDBOnce(in c20Input, exe string, raceBuild bool) (c20DBResult, bool) {
 		res.Crash = fmt.Sprintf("child exit %d: %s", ee.ExitCode(), c20Tail(out, 300))
 	}
 	return res, strings.Contains(out, "ThreadSanitizer: CHECK failed")
+}
+
+// c20FastChainPlan: a fast chain (25 ms blocks, the block source ticking many times while the run is wound up):
+// 2400 blocks = 60 s, one log-trigger upkeep performed once.  Winding a run up (summary, closing the nodes one
+// after the other, closing the collectors) takes many block cadences here.
+func c20FastChainPlan() config.SimulationPlan {
+	genesis := int64(9000)
+	return config.SimulationPlan{
+		Node:         config.Node{Count: 4, MaxServiceWorkers: 100, MaxQueueSize: 1000},
+		Network:      config.Network{MaxLatency: config.Duration(30 * time.Millisecond)},
+		RPC:          config.RPC{MaxBlockDelay: 10, AverageLatency: 20, ErrorRate: 0, RateLimitThreshold: 1000},
+		Blocks:       config.Blocks{Genesis: big.NewInt(genesis), Cadence: config.Duration(25 * time.Millisecond), Duration: 2000, EndPadding: 400},
+		ConfigEvents: []config.OCR3ConfigEvent{c20ConfigEvent(genesis+40, 1)},
+		GenerateUpkeeps: []config.GenerateUpkeepEvent{{
+			Event: config.Event{Type: config.GenerateUpkeepEventType, TriggerBlock: big.NewInt(genesis + 10)},
+			Count: 1, StartID: big.NewInt(300), EligibilityFunc: "always", UpkeepType: config.LogTriggerUpkeepType,
+			LogTriggeredBy: "test_trigger_event", Expected: config.AllExpected,
+		}},
+		LogEvents: []config.LogTriggerEvent{
+			{Event: config.Event{Type: config.LogTriggerEventType, TriggerBlock: big.NewInt(genesis + 800)}, TriggerValue: "test_trigger_event"},
+		},
+	}
 }
